@@ -12,6 +12,7 @@ RULE = ("Typed grammar-directed programs (all 8 comparison operators in ident-li
         "assignments; all conditional skeletons with <=3 returns). Oracle: independent reference interpreter. A further part pushes pairs of NEIGHBOUR programs (identifier vs string of the same text, number vs string of the same spelling, ==-equal literals of other type, blanks / case inside string operands) through recompile() of a live evaluator and checks the routing of the new program. "
         "Non-trivial = program with a conditional whose inputs reach >=2 different outcomes; distinct by "
         "(program text, outcome vector).")
+RULE += (' Since round 7: skeletons in which the same test occurs more than once; every neighbour pair of three fixed programs through recompile().')
 ASSUMPTIONS = [
     "only type-compatible comparisons are generated (the property quantifies over type-compatible inputs)",
     "NaN is not used as a routing input (identity vs equality semantics of `in` differ for NaN)",
